@@ -26,8 +26,8 @@ CHECKS = {
     "C02": [("harness.checks.queryfam", "C02"), ("harness.checks.kvscan", "C02")],
     "C12": [("harness.checks.queryfam", "C12"), ("harness.checks.kvscan", "C12")],
     "C06": [("harness.checks.storefam", "C06"), ("harness.checks.relayfam", "C06")],
-    "C08": ("harness.checks.storefam", "C08"),
-    "C09": ("harness.checks.storefam", "C09"),
+    "C08": [("harness.checks.storefam", "C08"), ("harness.checks.kvscan", "C08")],
+    "C09": [("harness.checks.storefam", "C09"), ("harness.checks.kvscan", "C09")],
     "C17": ("harness.checks.storefam", "C17"),
 }
 
